@@ -10,8 +10,8 @@ struct AT {
     int   cls;
 };
 const AT  ATS[] = {{DFNT_INT8, 1, 0},   {DFNT_UINT8, 1, 0},   {DFNT_INT16, 2, 0},   {DFNT_UINT16, 2, 0}, {DFNT_INT32, 4, 0},
-                   {DFNT_UINT32, 4, 0}, {DFNT_FLOAT32, 4, 2}, {DFNT_FLOAT64, 8, 3}, {DFNT_CHAR8, 1, 1}};
-const int NAT   = 9;
+                   {DFNT_UINT32, 4, 0}, {DFNT_FLOAT32, 4, 2}, {DFNT_FLOAT64, 8, 3}, {DFNT_CHAR8, 1, 1}, {DFNT_UCHAR8, 1, 1}};
+const int NAT   = 10; // the two character types come last: datasets and scales take the first NAT - 2
 // names with common prefixes on purpose
 const char *NAMES[] = {"att", "att_x", "a", "units_si", "valid_range_src", "scale_factor_err_x", "Zeta", "long_name_2"};
 const int   NNAMES  = 8;
@@ -134,7 +134,7 @@ struct Attrs : Profile {
                     p.ops.push_back(mkop(0, names[k], {kind, obj, sub}));
                     break;
                 case 2:
-                    p.ops.push_back(mkop(0, names[k], {obj, r.range(1, 2), (int64_t)r.below(NAT - 1), r.range(1, 4), r.range(1, 3)}));
+                    p.ops.push_back(mkop(0, names[k], {obj, r.range(1, 2), (int64_t)r.below(NAT - 2), r.range(1, 4), r.range(1, 3)}));
                     break;
                 case 3:
                     p.ops.push_back(mkop(0, names[k], {obj, (int64_t)r.below(16), (int64_t)(r.next() >> 16)}));
@@ -148,7 +148,7 @@ struct Attrs : Profile {
                     p.ops.push_back(mkop(0, names[k], {obj, sub, (int64_t)r.below(4)}));
                     break;
                 case 8:
-                    p.ops.push_back(mkop(0, names[k], {obj, sub, (int64_t)r.below(NAT - 1), (int64_t)(r.next() >> 16)}));
+                    p.ops.push_back(mkop(0, names[k], {obj, sub, (int64_t)r.below(NAT - 2), (int64_t)(r.next() >> 16)}));
                     break;
                 case 9:
                     p.ops.push_back(mkop(0, names[k], {obj, sub, (int64_t)r.below(8), (int64_t)(r.next() >> 16)}));
@@ -705,7 +705,7 @@ struct Attrs : Profile {
                     open_sd(s);
                     d         = MSds();
                     d.rank    = (int)std::max<int64_t>(1, std::min<int64_t>(2, o.arg(1)));
-                    d.nt      = modn(o.arg(2), NAT - 1);
+                    d.nt      = modn(o.arg(2), NAT - 2);
                     d.dims[0] = (int32)std::max<int64_t>(1, o.arg(3));
                     d.dims[1] = (int32)std::max<int64_t>(1, o.arg(4));
                     int32 id  = SDcreate(s.sd, strf("var%d", di).c_str(), ATS[d.nt].code, d.rank, d.dims);
@@ -815,7 +815,7 @@ struct Attrs : Profile {
                             d.dimname[dn] = nn;
                         }
                         else if (k == "dimscale") {
-                            int snt = modn(o.arg(2), NAT - 1);
+                            int snt = modn(o.arg(2), NAT - 2);
                             std::vector<uint8_t> v((size_t)d.dims[dn] * (size_t)ATS[snt].size);
                             for (int32 q = 0; q < d.dims[dn]; q++)
                                 avalue(ATS[snt], (uint64_t)o.arg(3), (uint64_t)q, v.data() + (size_t)q * (size_t)ATS[snt].size);
